@@ -44,7 +44,7 @@ pub fn child(args: &[String]) {
         "<{h({l}):.3}{h({t}):2.2}|{m}>{n}"
     };
     let fd = if args[0] == "stderr" { 2 } else { 1 };
-    let a: Box<dyn Append> = if args.get(2).map(|s| s == "config").unwrap_or(false) {
+    let mk = || -> Box<dyn Append> { if args.get(2).map(|s| s == "config").unwrap_or(false) {
         // from a configuration value; keys whose documented default is wanted are left out
         let mut doc = json!({"encoder": {"pattern": pattern}});
         if args[0] == "stderr" {
@@ -63,7 +63,8 @@ pub fn child(args: &[String]) {
                 .encoder(Box::new(log4rs::encode::pattern::PatternEncoder::new(pattern)))
                 .build(),
         )
-    };
+    } };
+    let a = mk();
     for l in LEVELS {
         let r = if long {
             a.append(&log::Record::builder().level(l).target("tg").args(format_args!(long_literal!())).build())
@@ -76,6 +77,22 @@ pub fn child(args: &[String]) {
         // a marker written to the descriptor itself: whatever append wrote must be on the stream before it
         unsafe {
             libc::write(fd, b"@".as_ptr() as *const libc::c_void, 1);
+        }
+    }
+    // "redirect <file>": the stream is then re-pointed at a file and a second appender is built: what it does follows
+    // the stream as it is when it is built (a file is not a terminal)
+    if let Some(path) = args.get(4) {
+        drop(a);
+        use std::os::unix::io::AsRawFd;
+        let f = std::fs::OpenOptions::new().create(true).append(true).open(path).expect("redirect file");
+        unsafe {
+            libc::dup2(f.as_raw_fd(), fd);
+        }
+        let b = mk();
+        for l in LEVELS {
+            if b.append(&log::Record::builder().level(l).target("tg").args(format_args!("payload")).build()).is_err() {
+                std::process::exit(3);
+            }
         }
     }
 }
@@ -193,6 +210,13 @@ fn check_row(case: &Value, exe: &str, idx: usize) -> Option<Value> {
     let nonl = variant;
     // (idx is row * 8 + variant: every row runs with both constructions and all three patterns)
     cmd.arg(["nl", "nonl", "aligned", "long"][variant]);
+    let redirect = if variant == 0 {
+        let s = crate::fsutil::Scratch::new("redir");
+        cmd.arg(s.path().join("second.txt"));
+        Some(s)
+    } else {
+        None
+    };
     for (var, key) in [("NO_COLOR", "no_color"), ("CLICOLOR", "clicolor"), ("CLICOLOR_FORCE", "force")] {
         match r[key].as_str().unwrap() {
             "unset" => {
@@ -221,6 +245,21 @@ fn check_row(case: &Value, exe: &str, idx: usize) -> Option<Value> {
     });
     if !status.success() {
         return Some(json!({"what": "child failed or panicked", "status": status.to_string(), "stderr": String::from_utf8_lossy(&err)}));
+    }
+    if let Some(s) = &redirect {
+        // the second appender was built when the stream was a file: it writes unless it is tty_only, and colours only
+        // when colour is forced
+        let second = std::fs::read_to_string(s.path().join("second.txt")).unwrap_or_default();
+        let forced = r["no_color"].as_str().map(|v| v == "unset" || v == "0").unwrap_or(true) && r["force"].as_str().map(|v| v != "unset" && v != "0").unwrap_or(false);
+        let tty_only = r["tty_only"].as_bool().unwrap();
+        let plain: String = LEVELS.iter().map(|l| plain_line(*l, 0)).collect();
+        let stripped = strip_sgr(&second).map(|x| x.0).unwrap_or_else(|_| second.clone());
+        let has_esc = second.contains('\u{1b}');
+        let ok = if tty_only { second.is_empty() } else { stripped == plain && has_esc == forced };
+        if !ok {
+            return Some(json!({"what": "an appender built after the stream was re-pointed at a file does not follow the new stream",
+                               "tty_only": tty_only, "colour_forced": forced, "file_content": second}));
+        }
     }
     let norm = |b: &[u8]| String::from_utf8_lossy(b).replace("\r\n", "\n");
     let (on_target, other) = if r["target"] == "stdout" { (norm(&out), norm(&err)) } else { (norm(&err), norm(&out)) };
